@@ -1028,10 +1028,24 @@ def run_probe_present(case):
     def positions():
         return [u_ * want_period[d] for d, u_ in enumerate(cur_unit)]
 
+    S = dict(pos=None, mesh=None, n=0)        # positions the history object has stored (copies), and a call counter
+
     def evaluate(obj_srf, obj_gen, model, pos, mesh, stored=False):
         if obj_srf is not None:
             if stored:
+                # no positions given: __call__, or the structured() / unstructured() entry points
+                if obj_srf is srf:
+                    S["n"] += 1
+                    if S["n"] % 3 == 1:
+                        fn = obj_srf.structured if S["mesh"] == "structured" else obj_srf.unstructured
+                        return np.asarray(fn(store=False, post_process=False), dtype=float)
                 return np.asarray(obj_srf(store=False, post_process=False), dtype=float)
+            if obj_srf is srf:
+                S["pos"], S["mesh"] = [np.array(p) for p in pos], mesh
+                S["n"] += 1
+                if S["n"] % 3 == 2:
+                    fn = obj_srf.structured if mesh == "structured" else obj_srf.unstructured
+                    return np.asarray(fn(tuple(np.array(p) for p in pos), store=False, post_process=False), dtype=float)
             return np.asarray(obj_srf(tuple(np.array(p) for p in pos), mesh_type=mesh, store=False, post_process=False), dtype=float)
         if mesh == "structured":
             from gstools.tools.geometric import generate_grid
@@ -1104,6 +1118,7 @@ def run_probe_present(case):
                     if "seed" in op:
                         kw["seed"] = seed_now = op["seed"]
                     if op["pos"] == "new":
+                        S["pos"], S["mesh"] = [np.array(p) for p in positions()], cur_mesh
                         srf(tuple(np.array(p) for p in positions()), mesh_type=cur_mesh, **kw)
                     else:
                         srf(**kw)                      # stored positions (those of the last evaluation)
@@ -1142,6 +1157,12 @@ def run_probe_present(case):
                 w, d_ = r, dict(what=name, max_abs_diff=float(np.max(np.abs(a - b))) if a.shape == b.shape else None, amp=amp,
                                 history=hexl(a.ravel()[:4]), expected=hexl(b.ravel()[:4]))
 
+        if kind == "srf" and S["pos"] is not None:
+            # FIRST evaluation after the operation: no positions given, the object works on what it has stored
+            sp, sm = [p.copy() for p in S["pos"]], S["mesh"]
+            F0 = evaluate(srf, gen, pm, sp, sm, stored=True)
+            cmp("first call after the operation WITHOUT positions (stored positions) vs fresh object with the present parameters "
+                "on the same positions", F0, evaluate(f_srf, f_gen, fm, sp, sm))
         F1 = evaluate(srf, gen, pm, pos, cur_mesh)
         cmp("field at newly given positions vs fresh object with the present parameters", F1, F_fresh)
         if kind == "srf":
@@ -1240,6 +1261,146 @@ def probe_bare_edit(ctx, rng):
                       dict(case, detail=det), key="bare-generator:gen.model-edited-in-place-without-assignment")
 
 
+# ---- near-identity geometry: anis -> 1 and angles -> 0 geometrically ------------------------------------------------
+# Tolerance from rounding, not from "quiet enough": every term is amp_j * cos/sin(phase_j), phase_j = sum_d k_dj * x_d with
+# x the isometrized position (a matrix product with entries of size <= 1/ratio) — the absolute error of a phase is
+# <= c * eps * P, P = max over points of sum_d max_j|k_dj| * |x_d| (rounding of k, of the isometrize product, of the dot
+# product), plus a few ulp of cos/sin (numpy SIMD vs exact).  |f(x+qp) - f(x)| <= AMP * eps * (4 P + 16) bounds both
+# evaluations; calibrated on 1728 configurations of the unchanged tree: worst observed defect = 0.15 of this bound.
+EPS = 2.0 ** -52
+
+
+def tight_tol(gen, model, pts_list):
+    kmax = np.max(np.abs(np.asarray(gen._modes, dtype=float)), axis=1) if np.asarray(gen._modes).size else np.zeros(model.dim)
+    P = 0.0
+    for pts in pts_list:
+        iso = np.abs(np.asarray(model.isometrize(np.array(pts, dtype=float)), dtype=float))
+        P = max(P, float(np.max(kmax @ iso)) if iso.size else 0.0)
+    return amp_of(gen) * EPS * (4.0 * P + 16.0), P
+
+
+def near_identity_cfgs(rng, tier):
+    """anis = 1 +- 10^-j and angles = +-10^-j, j = 1..12 (also through a len_scale list such as [250, 250.002]),
+    dims 2 and 3; the thresholds of any 'is it isotropic / unrotated' shortcut lie on this ladder"""
+    out = []
+    reps = 3 if tier == "thorough" else 1
+    for rep in range(reps):
+        for j in range(1, 13):
+            for sgn in (1.0, -1.0):
+                for dim in (2, 3):
+                    d = sgn * 10.0 ** -j
+                    how = ["anis", "len_scale_list", "angles", "both"][int(rng.integers(4))]
+                    cfg = dict(cls=str(rng.choice(["Gaussian", "Exponential", "Matern"])), dim=dim, var=1.0,
+                               len_scale=float(rng.choice([1.0, 3.0, 250.0])), anis=[1.0] * (dim - 1), angles=[0.0] * n_angles(dim), opt={})
+                    if cfg["cls"] == "Matern":
+                        cfg["opt"]["nu"] = 1.5
+                    if how in ("anis", "both", "len_scale_list"):
+                        cfg["anis"] = [1.0 + d if (k == 0 or rng.random() < 0.5) else 1.0 for k in range(dim - 1)]
+                    if how == "len_scale_list":
+                        cfg["len_scale_list"] = [cfg["len_scale"]] + [cfg["len_scale"] * a for a in cfg["anis"]]
+                    if how in ("angles", "both"):
+                        cfg["angles"] = [d * float(rng.choice([1.0, -1.0, 0.5])) if (k == 0 or rng.random() < 0.5) else 0.0
+                                         for k in range(n_angles(dim))]
+                    if how == "angles":
+                        cfg["anis"] = [float(rng.choice([1.0, 0.5, 2.0])) for _ in range(dim - 1)]
+                    period = [float(x) for x in rng.choice([1.0, 8.0, 10.0, 2 * math.pi, 33.3], dim)]
+                    mode_no = [int(2 * rng.integers(2, 9)) for _ in range(dim)] if dim == 2 else [int(2 * rng.integers(1, 5)) for _ in range(dim)]
+                    out.append(dict(kind="near_identity", j=j, how=how, model=cfg, period=hexl(period), mode_no=mode_no,
+                                    seed=int(rng.integers(0, 1000)), pts=[hexl(rng.uniform(-1.0, 1.0, 4)) for _ in range(dim)],
+                                    qs=[1, 10, 100]))
+    return out
+
+
+def make_model_ni(cfg):
+    import gstools as gs
+    if "len_scale_list" in cfg:
+        kw = dict(dim=cfg["dim"], var=cfg["var"], len_scale=list(cfg["len_scale_list"]), angles=list(cfg["angles"]))
+        kw.update(cfg.get("opt", {}))
+        return getattr(gs, cfg["cls"])(**kw)
+    return make_model(cfg)
+
+
+def run_probe_near_identity(case):
+    """periodicity defect after 1, 10 and 100 periods, relative to the rounding-justified tolerance"""
+    import gstools as gs
+    model = make_model_ni(case["model"])
+    dim = model.dim
+    period = unhex(case["period"])
+    srf = gs.SRF(model, generator="Fourier", period=list(period), mode_no=case["mode_no"], seed=case["seed"])
+    pts = [unhex(p) * period[d] for d, p in enumerate(case["pts"])]
+    base = np.asarray(srf(tuple(pts), store=False, post_process=False), dtype=float)
+    axes = np.asarray(model.main_axes(), dtype=float)
+    worst, det = 0.0, None
+    for ax in range(dim):
+        for q in case["qs"]:
+            sh = q * period[ax] * axes[ax, :]
+            moved = [pts[d] + sh[d] for d in range(dim)]
+            tol, P = tight_tol(srf.generator, model, [pts, moved])
+            f2 = np.asarray(srf(tuple(moved), store=False, post_process=False), dtype=float)
+            r = float(np.max(np.abs(f2 - base))) / tol
+            if not np.isfinite(r):
+                r = float("inf")
+            if r > worst:
+                worst, det = r, dict(axis=ax, periods=q, max_abs_diff=float(np.max(np.abs(f2 - base))), tol=tol, phase_bound=P,
+                                     amp=amp_of(srf.generator), anis=hexl(np.atleast_1d(model.anis)), angles=hexl(np.atleast_1d(model.angles)))
+    return worst, det
+
+
+def probe_near_identity(ctx, rng):
+    worst_seen = 0.0
+    cases = near_identity_cfgs(rng, ctx.tier)
+    for case in cases:
+        ctx.count(("near_identity", case["j"], case["how"], case["model"]["dim"]), hist=dict(op="probe:near-identity", j=case["j"], how=case["how"]))
+        try:
+            worst, det = run_probe_near_identity(case)
+        except Exception as e:
+            ctx.violation("probe: near-identity geometry", "implementation raised %s: %s" % (type(e).__name__, e), case,
+                          key="probe:near-identity:exception")
+            continue
+        worst_seen = max(worst_seen, worst if np.isfinite(worst) else 0.0)
+        if worst > 1.0:
+            ctx.violation("probe: periodicity for anis -> 1 / angles -> 0 (|delta| = 1e-%d, %s)" % (case["j"], case["how"]),
+                          "periodicity defect %.3g after %d period(s) along main axis %d exceeds the rounding bound %.3g: %s" % (
+                              det["max_abs_diff"], det["periods"], det["axis"], det["tol"], json.dumps(det)),
+                          dict(case, detail=det), key="probe:near-identity:not-periodic")
+    ctx.notes.append("near-identity probes: %d, worst defect / rounding bound = %.3g" % (len(cases), worst_seen))
+
+
+def corr_isometrize(ctx, drv, rng, tie_bad):
+    """CovModel.isometrize / main_axes vs the extracted exact map (C12's model) on the same ladder and on random models;
+    tolerance 64 eps * sum of |M||x| (a 2- or 3-term product of entries that are products of <= 3 cos/sin values and 1/ratio)"""
+    cases = near_identity_cfgs(rng, "quick")
+    for i in range(60):
+        dim = int(rng.integers(1, 4))
+        cases.append(dict(kind="iso", j=0, how="random", model=gen_model_cfg(rng, dim, ["Gaussian"]),
+                          pts=[hexl(rng.uniform(-1.0, 1.0, 4)) for _ in range(dim)]))
+    for case in cases:
+        model = make_model_ni(case["model"])
+        dim = model.dim
+        pts = np.array([unhex(p) for p in case["pts"]], dtype=float) * 37.0
+        ctx.count(("isometrize", case["j"], case["how"], dim), hist=dict(op="isometrize", j=case["j"]))
+        anis = np.asarray(np.atleast_1d(model.anis), dtype=float)[: dim - 1] if dim > 1 else np.zeros(0)
+        angles = np.asarray(np.atleast_1d(model.angles), dtype=float)
+        got = np.asarray(model.isometrize(pts.copy()), dtype=float)
+        ref = np.asarray(drv.call("isometrize", ("n", dim), angles, anis, pts), dtype=float).reshape(got.shape)
+        ratios = np.concatenate(([1.0], anis))
+        scale = (np.sum(np.abs(pts), axis=0)[None, :] / ratios[:, None])
+        if not (np.abs(got - ref) <= 64 * EPS * scale).all():
+            tie_bad.append("isometrize")
+            ctx.violation("correspondence: CovModel.isometrize vs extracted exact map",
+                          "isometrize differs from derotation followed by division by the ratios beyond rounding "
+                          "(max |diff| / scale = %.3g)" % float(np.max(np.abs(got - ref) / scale)),
+                          dict(case, impl=hexl(got), model_out=hexl(ref)), key="corr:isometrize", no_input=True)
+            break
+        axes_i = np.asarray(model.main_axes(), dtype=float)
+        axes_m = np.asarray(drv.call("main_axes", ("n", dim), angles), dtype=float).reshape(axes_i.shape)
+        if not (np.abs(axes_i - axes_m) <= 64 * EPS).all():
+            tie_bad.append("main_axes")
+            ctx.violation("correspondence: CovModel.main_axes vs extracted model", "main axes differ", dict(case),
+                          key="corr:main_axes", no_input=True)
+            break
+
+
 def run_probe_subtle(case):
     import gstools as gs
     model = make_model(case["model"])
@@ -1327,11 +1488,13 @@ def run(ctx):
         probe_configs(ctx, C.Rng(ctx.seed, "C17/configs"))
         probe_histories(ctx, C.Rng(ctx.seed, "C17/histories"))
         probe_present(ctx, C.Rng(ctx.seed, "C17/present"))
+        probe_near_identity(ctx, C.Rng(ctx.seed, "C17/near"))
         probe_subtle(ctx, C.Rng(ctx.seed, "C17/subtle"))
         probe_bare_edit(ctx, C.Rng(ctx.seed, "C17/bare"))
         t2 = time.time()
         if drv is not None:
             corr_functions(ctx, drv, C.Rng(ctx.seed, "C17/corr"), tie_bad)
+            corr_isometrize(ctx, drv, C.Rng(ctx.seed, "C17/iso"), tie_bad)
             corr_histories(ctx, drv, C.Rng(ctx.seed, "C17/corrh"), tie_bad)
         ctx.notes.append("wall: translate+coq+driver build (incl. waiting for the shared build lock) %.0fs, probes %.0fs, "
                          "correspondence %.0fs" % (t_build, t2 - t1, time.time() - t2))
@@ -1350,7 +1513,8 @@ def replay(ctx, path):
     case = rec.get("case", {})
     kind = case.get("kind")
     setup_ctx(ctx)
-    fn = dict(config=run_probe_config, history_probe=run_probe_history, subtle=run_probe_subtle, present=run_probe_present, bare_edit=run_probe_bare_edit).get(kind)
+    fn = dict(config=run_probe_config, history_probe=run_probe_history, subtle=run_probe_subtle, present=run_probe_present, bare_edit=run_probe_bare_edit,
+              near_identity=run_probe_near_identity).get(kind)
     if fn is None:
         run(ctx)
         return ctx.finish()
